@@ -28,25 +28,25 @@ GOTYPE = {"T": "T1", "U": "U1", "P": "P1", "PP": "*P1", "A": "IA", "B": "IB", "a
 VALUE = {"T": "T1{}", "U": "U1{}", "P": "P1{}", "PP": "&P1{}", "nilvalue": "nil"}
 TS_PRELUDE = """package %s
 
-type IA interface{ a() }
+type IA interface{ A() }
 
 type IB interface {
-	a()
-	b()
+	A()
+	B()
 }
 
 type T1 struct{}
 
-func (T1) a() {}
+func (T1) A() {}
 
 type U1 struct{}
 
-func (U1) a() {}
-func (U1) b() {}
+func (U1) A() {}
+func (U1) B() {}
 
 type P1 struct{}
 
-func (*P1) a() {}
+func (*P1) A() {}
 
 """
 
@@ -97,6 +97,23 @@ def type_switches(ctx, states):
         if w["line"] in line_of:
             i, j = line_of[w["line"]]
             flagged.setdefault(i, {})[j] = w["text"]
+    # the same file through the real command after a package that does not type-check (one long-lived checker instance sees an
+    # interface case followed by an unresolvable case type first): its claims are judged by the same executions
+    os.makedirs(os.path.join(d, "aaa"))
+    open(os.path.join(d, "aaa", "aaa.go"), "w").write(
+        "package aaa\n\ntype IA interface{ A() }\n\ntype IB interface {\n\tA()\n\tB()\n}\n\n"
+        "func first(v interface{}) int {\n\tswitch v.(type) {\n\tcase IA:\n\t\treturn 1\n\tcase IB:\n\t\treturn 2\n\tcase missingType:\n\t\treturn 3\n\t}\n\treturn 0\n}\n")
+    binp = ctx.build_repo_bin("cmd/go-critic")
+    r = subprocess.run([binp, "check", "-enable=caseOrder", "./aaa", "./sw"], cwd=d, env=vlib.goenv(), capture_output=True, text=True, timeout=600)
+    cli_lines = 0
+    for l in (r.stderr + r.stdout).splitlines():
+        m = re.match(r"^\S*sw/sw\.go:(\d+):\d+: caseOrder: (.*)$", l.strip())
+        if m and int(m.group(1)) in line_of:
+            cli_lines += 1
+            i, j = line_of[int(m.group(1))]
+            flagged.setdefault(i, {}).setdefault(j, m.group(2) + " [go-critic check ./aaa ./sw]")
+    if cli_lines == 0:
+        raise vlib.Infra("the command reported no caseOrder diagnostics on the generated switches: " + (r.stderr + r.stdout)[-500:])
     # execute every switch on every value
     m = os.path.join(d, "run")
     os.makedirs(m)
@@ -166,6 +183,9 @@ def claim_templates(ctx):
     for e in ("x < -10 && x > 10", "x > 10 && x < -10", "x < 1 && x > 2", "g() < 1 && g() > 2", "x == 1 && x == 2", "x < 1 && y > 2", "x <= 1 && x >= 1",
               "x < 010 && x > 011", "x != 1 || x != 2"):
         add(I2, expr=e)
+    # impure operands that really differ between the two evaluations
+    for e in ("alt() < 1 && alt() > 2", "alt() == 0 && alt() == 3", "xs[alt()%2] < 1 && xs[alt()%2] > 2"):
+        add([("xs", "[]int")], body="\tif len(xs) < 2 {\n\t\txs = []int{0, 3}\n\t}\n\treturn fmt.Sprint(%s, fx())" % e)
     for e in ("p < -1.0 && p > 1.0", "p < q && p > q"):
         add([("p", "float64"), ("q", "float64")], expr=e)
     # offBy1
@@ -183,10 +203,17 @@ def claim_templates(ctx):
     add([("ip", "*int")], body="\tf := func(p *int) *int {\n\t\tif p == nil {\n\t\t\treturn p\n\t\t}\n\t\treturn nil\n\t}\n\treturn fmt.Sprint(f(ip) == nil, fx())")
     add([("xs", "[]int")], body="\tcache := xs\n\tfill := func() { cache = []int{1} }\n\tf := func() []int {\n\t\tif cache == nil {\n\t\t\tfill()\n\t\t\treturn cache\n\t\t}\n\t\treturn nil\n\t}\n\tr := f()\n\treturn fmt.Sprint(r == nil || len(xs) > 0, fx())")
     add([("xs", "[]int")], body="\tcache := xs\n\tf := func() []int {\n\t\tif cache == nil {\n\t\t\tcache = []int{1}\n\t\t\treturn cache\n\t\t}\n\t\treturn nil\n\t}\n\tr := f()\n\treturn fmt.Sprint(r == nil || len(xs) > 0, fx())")
+    add([("x", "int")], body="\ta, b := &node{}, &node{next: &node{val: x}}\n\tf := func() *node {\n\t\tif a.next == nil {\n\t\t\treturn b.next\n\t\t}\n\t\treturn nil\n\t}\n\treturn fmt.Sprint(f() == nil, fx())")
+    add([("x", "int")], body="\tslots := []*node{nil, {val: x}}\n\ti, j := 0, 1\n\tf := func() *node {\n\t\tif slots[i] == nil {\n\t\t\treturn slots[j]\n\t\t}\n\t\treturn nil\n\t}\n\treturn fmt.Sprint(f() == nil, fx())")
+    add([("x", "int")], body="\tn := &node{val: x}\n\tpp := &n\n\tvar q **node\n\tf := func() **node {\n\t\tif q == nil {\n\t\t\treturn pp\n\t\t}\n\t\treturn nil\n\t}\n\treturn fmt.Sprint(f() == nil, fx())")
+    add([("x", "int")], body="\ta := &node{}\n\tf := func() *node {\n\t\tif a.next == nil {\n\t\t\treturn a.next\n\t\t}\n\t\treturn a\n\t}\n\treturn fmt.Sprint(f() == nil, fx())")
     # dupSubExpr / dupArg: "same value" = the two operands, evaluated as the expression evaluates them, are equal
     add(I2, body="\ta, b := x, x\n\t_ = x - x\n\treturn fmt.Sprint(a == b, fx())")
     add(I2, body="\ta := g()\n\tb := g()\n\t_ = g() - g()\n\treturn fmt.Sprint(a == b, fx())")
-    add([("p", "float64")], body="\t_ = p == p\n\treturn fmt.Sprint(p == p || p != p, fx())")
+    add([("p", "float64")], body="\t_ = p == p\n\treturn fmt.Sprint(p == p, fx())")
+    add([("p", "float64")], body="\tnan := p != p\n\treturn fmt.Sprint(!nan, fx())")
+    add([("a", "Fl")], body="\t_ = a == a\n\treturn fmt.Sprint(a == a, fx())")
+    add([("a", "Fl")], body="\tnan := a != a\n\treturn fmt.Sprint(!nan, fx())")
     add(I2, body="\txs := []int{1, 2, 3}\n\ti := 0\n\tnext := func() int { i++; return xs[i-1] }\n\ta := next()\n\tb := next()\n\t_ = next() == next()\n\treturn fmt.Sprint(a == b, fx())")
     S2 = [("s", "string"), ("t", "string")]
     add(S2, body="\t_ = strings.Contains(s, s)\n\treturn fmt.Sprint(s == s, fx())")
